@@ -81,6 +81,19 @@ def child_env():
 
 
 # --------------------------------------------------------------------------- shard side
+def _blame(exc):
+    repo = os.path.realpath(os.environ.get('VERIF_REPO', '/repo')) + os.sep
+    verif = os.path.realpath(VERIF) + os.sep
+    who, where = None, None
+    for fs in traceback.extract_tb(exc.__traceback__):
+        fn = os.path.realpath(fs.filename)
+        if fn.startswith(repo):
+            who, where = 'repo', (os.path.relpath(fn, repo), fs.name)
+        elif fn.startswith(verif):
+            who = 'verif'
+    return who, where
+
+
 def run_shard(prop, spec_path, out_path):
     mod = load_module(prop)
     with open(spec_path) as f:
@@ -98,9 +111,20 @@ def run_shard(prop, spec_path, out_path):
                     signal.alarm(0)
             except CaseTimeout:
                 rec = {'verdict': 'inconclusive', 'why': 'watchdog', 'hits': 0}
-            except Exception:  # harness/oracle crash: never a violation
-                rec = {'verdict': 'inconclusive', 'why': 'harness-error',
-                       'trace': traceback.format_exc()[-2000:], 'hits': 0}
+            except Exception as exc:
+                # Who made the call that failed?  The deepest frame that belongs either to the code under test or to this
+                # machinery decides: an exception escaping the repository's own code on an input the property covers (the
+                # property modules catch the errors they expect) means the promised result was not delivered -> violation
+                # with the traceback as witness; an exception in the oracle/harness is never a violation -> inconclusive.
+                who, where = _blame(exc)
+                if who == 'repo':
+                    key = 'crash/%s/%s:%s' % (type(exc).__name__, where[0], where[1])
+                    rec = {'verdict': 'violated', 'hits': 1, 'key': key,
+                           'what': 'the code under test raised %s on an input the property covers' % type(exc).__name__,
+                           'witness': {'exception': repr(exc)[:500], 'trace': traceback.format_exc()[-2500:]}}
+                else:
+                    rec = {'verdict': 'inconclusive', 'why': 'harness-error',
+                           'trace': traceback.format_exc()[-2000:], 'hits': 0}
             rec['params'] = params
             rec['t'] = round(time.time() - t0, 4)
             out.write(json.dumps(rec, default=str) + '\n')
